@@ -8,6 +8,10 @@
 -/
 import GeoModel.PolygonSM
 import GeoModel.Traverse
+import GeoModel.Gen.RectGen
+import GeoModel.Area
+import GeoModel.Affine
+import Mathlib.Tactic.NormNum
 
 namespace Geo.Proofs.C18
 open Geo Geo.SM
@@ -191,5 +195,24 @@ theorem lineToLineString_coords (a b : Pt) : lineToLineString a b = [a, b] := rf
 /-- [T] `Rect::to_lines` are the consecutive pairs of `Rect::to_polygon`. -/
 theorem rectToLines_windows (r : RectS) : rectToLines r = windows2 (rectToPolygon r) := by
   simp [rectToLines, rectToPolygon, windows2]
+
+/-! ### tie to the source: `Rect` kernels regenerated from geo-types -/
+
+/-- [E2] The hand-written `Rect` kernels are the terms `translator/rs2lean.py` regenerates on every
+run from the bodies of `Rect::new`, `Rect::has_valid_bounds` (the check behind the panics of
+`set_min` / `set_max`), `width`, `height` and `center` in geo-types/src/geometry/rect.rs: a changed
+comparison, a swapped component or operand in those bodies changes the regenerated definition and
+this theorem stops checking. (`width`·`height` is the `Area` of a `Rect`, property C05; `center` is
+the origin of the `Scale` / `Skew` / `Rotate` trait layers, property C13.) -/
+theorem rect_kernels_eq_source :
+    (∀ a b : Pt, rectNew a b = Gen.rectNew a b) ∧
+    (∀ r : RectS, rectValid r = Gen.rectHasValidBounds r) ∧
+    (∀ r : RectS, rectArea r.mn r.mx = Gen.rectWidth r * Gen.rectHeight r) ∧
+    (∀ r : RectS, rectCenter (r.mn, r.mx) = Gen.rectCenter r) := by
+  refine ⟨fun a b => ?_, fun _ => rfl, fun _ => rfl, fun r => ?_⟩
+  · unfold rectNew Gen.rectNew
+    by_cases h1 : a.x < b.x <;> by_cases h2 : a.y < b.y <;> simp [h1, h2]
+  · unfold rectCenter Gen.rectCenter
+    norm_num
 
 end Geo.Proofs.C18
